@@ -573,10 +573,13 @@ def _s3c(program, res):
         if isinstance(st, ast.Assign) and isinstance(st.targets[0], ast.Subscript) and unparse(st.targets[0].value) == "terms":
             n_st += 1
             key = st.targets[0].slice
+            # the aliases of the two sides: the names handed to _coalesce_terms as sub_view_name_first / _second
+            side_names = {kw.value.id for c_ in ast.walk(nj.node) if isinstance(c_, ast.Call) and isinstance(c_.func, ast.Attribute) and c_.func.attr == "_coalesce_terms"
+                          for kw in c_.keywords if kw.arg in ("sub_view_name_first", "sub_view_name_second") and isinstance(kw.value, ast.Name)}
             # a pass-through of the column itself: None (emitted by name) or the column's own name qualified by one side's alias
             own_name = isinstance(key, ast.Name) and isinstance(st.value, ast.BinOp) and not any(isinstance(x, ast.Constant) and isinstance(x.value, str) and "(" in x.value for x in ast.walk(st.value)) \
-                and any(isinstance(x, ast.Name) and x.id.endswith("_qqn") for x in ast.walk(st.value)) \
-                and {x.id for x in ast.walk(st.value) if isinstance(x, ast.Name)} <= {key.id, "self", "left_qqn", "right_qqn"}
+                and any(isinstance(x, ast.Name) and x.id in side_names for x in ast.walk(st.value)) \
+                and {x.id for x in ast.walk(st.value) if isinstance(x, ast.Name)} <= {key.id, "self"} | side_names
             if (isinstance(st.value, ast.Constant) and st.value.value is None) or own_name:
                 guards = " ".join(unparse(b.cond) for b, _l in g.lexical_guards(n))
                 if "not in common" in guards:
